@@ -783,8 +783,13 @@ ExitStatus Builder::Build(string* err) {
     // See if we can reap any finished commands.
     if (pending_commands) {
       // Tell command runner that if jobserver tokens become available while
-      // waiting, it should notify us - but only if we have more work to do.
-      const bool watch_jobserver = plan_.work_ready();
+      // waiting, it should notify us - but only if we have more work to do
+      // and are still allowed to start it.  Once the failure budget is used
+      // up nothing more is started, and a token that stays available would
+      // make every wait return at once: ppoll() reports a ready descriptor
+      // before it delivers a pending signal, so the SIGCHLD of a console
+      // command that has finished would never be seen.
+      const bool watch_jobserver = failures_allowed && plan_.work_ready();
       BuildResult result =
           command_runner_->WaitForCommandOrJobserverToken(watch_jobserver);
 
